@@ -27,7 +27,8 @@ def Op.shapeOK (op : Op) (p : Payload) (n : Nat) : Bool :=
   | .pow, _ | .algebraicConst, _ => false
   | .forall_, .qvars _ | .exists_, .qvars _ => n == 1
   | .forall_, _ | .exists_, _ => false
-  | .and, _ | .or, _ | .strConcat, _ | .function, _ | .arrayValue, _ => true
+  | .and, _ | .or, _ | .strConcat, _ | .arrayValue, _ => true
+  | .function, _ => decide (1 ≤ n)          -- `Function(f, [])` is the symbol `f`, never a node
   | .symbol, _ | .realConst, .q _ | .boolConst, .b _ | .intConst, .i _ | .strConst, .s _ => n == 0
   | .realConst, _ | .boolConst, _ | .intConst, _ | .strConst, _ => false
   | .bvConst, .bv v w => n == 0 && decide (v < 2 ^ w)
